@@ -24,7 +24,7 @@ macro_rules! std_headers { ($( $id:ident => $wire:literal ),* $(,)?) => {
     }
 } }
 std_headers! {
-    Server => "Server", Vary => "Vary", CacheControl => "Cache-Control", ETag => "ETag", Location => "Location",
+    Server => "Server", Vary => "Vary", ETag => "ETag", Location => "Location",
     ContentEncoding => "Content-Encoding", ContentLanguage => "Content-Language", Allow => "Allow", Age => "Age",
     AcceptRanges => "Accept-Ranges", AccessControlAllowOrigin => "Access-Control-Allow-Origin",
     AccessControlAllowCredentials => "Access-Control-Allow-Credentials", AccessControlAllowHeaders => "Access-Control-Allow-Headers",
@@ -71,7 +71,9 @@ impl Table {
     fn untok_val(&self, name_tok: &str, raw: &str) -> Value {
         match name_tok {
             "CL" => return json!([format!("n{raw}")]),
-            "CT" => return json!([match raw { "text/plain; charset=UTF-8" => "text", "text/html; charset=UTF-8" => "html", "application/json" => "json", "application/octet-stream" => "raw", _ => "?" }]),
+            "CT" => return json!([match raw { "text/plain; charset=UTF-8" => "text", "text/html; charset=UTF-8" => "html", "application/json" => "json", "application/octet-stream" => "raw", "text/event-stream" => "sse", _ => "?" }]),
+            "CC" => return json!([if raw == "no-cache, must-revalidate" { "nocache" } else { "?" }]),
+            "TE" => return json!([if raw == "chunked" { "chunked" } else { "?" }]),
             "DT" => return json!(["date"]),
             "SC" => return json!([match raw { "sid=1" => "c1", "theme=dk" => "c2", _ => "?" }]),
             _ => {}
@@ -84,10 +86,18 @@ impl Table {
         json!(toks)
     }
     fn untok_name(&self, names: &[(String, String)], wire: &str) -> String {
-        match wire { "Content-Type" => return "CT".into(), "Content-Length" => return "CL".into(), "Date" => return "DT".into(), "Set-Cookie" => return "SC".into(), _ => {} }
+        match wire { "Content-Type" => return "CT".into(), "Content-Length" => return "CL".into(), "Date" => return "DT".into(), "Set-Cookie" => return "SC".into(),
+                     "Cache-Control" => return "CC".into(), "Transfer-Encoding" => return "TE".into(), _ => {} }
         for (tok, w) in names { if w == wire { return tok.clone() } }
         format!("?{wire}")
     }
+}
+
+/// a stream of exactly one server-sent event
+struct OneMessage(Option<String>);
+impl ohkami_lib::Stream for OneMessage {
+    type Item = String;
+    fn poll_next(mut self: std::pin::Pin<&mut Self>, _: &mut std::task::Context<'_>) -> std::task::Poll<Option<String>> { std::task::Poll::Ready(self.0.take()) }
 }
 
 fn status_of(t: &str) -> Status {
@@ -110,6 +120,7 @@ fn apply(res: &mut Response, op: &[Value], t: &Table) {
                 "text" => res.set_text("t".repeat(n)),
                 "html" => res.set_html("h".repeat(n)),
                 "json" => res.set_json("j".repeat(n.saturating_sub(2))),
+                "stream" => res.set_stream(OneMessage(Some("s".repeat(n)))),
                 _ => res.set_payload("application/octet-stream", vec![0xABu8; n]),
             }
         }
@@ -201,7 +212,7 @@ pub fn gen(rng: &mut Rng, i: usize) -> Value {
             60..=65 => json!(["capp", c, if val == "e" { "p" } else { val }]),
             66..=73 => json!(["crem", c]),
             74..=79 => json!(["cookie", if rng.chance(1, 2) { "c1" } else { "c2" }]),
-            80..=89 => { let k = *rng.pick(&["text", "html", "json", "raw"]); let l = *rng.pick(&["n0", "n1", "n3", "n12", "n300", "n1000", "n5000"]);
+            80..=89 => { let k = *rng.pick(&["text", "html", "json", "raw", "stream"]); let l = *rng.pick(&["n0", "n1", "n3", "n12", "n300", "n1000", "n5000"]);
                          json!(["body", k, if k == "json" && (l == "n0" || l == "n1") { "n3" } else { l }]) }
             90..=94 => json!(["drop"]),
             _ => json!(["status", *rng.pick(&["s200", "s204", "s404", "s201", "s500"])]),
